@@ -52,3 +52,81 @@ LEMMAS = {
                functions=['fill_block (argon2_ref.c)', 'fill_block (argon2_ssse3.c)', 'fill_block (argon2_avx2.c)'],
                doc='the three fill_block implementations produce identical blocks, and the SIMD running state equals the new block', bound='one call, all inputs', symbolic='prev/state, ref, next blocks', stubs=[]),
 }
+
+# ------------------------------------------------------------------------------------------ G3 index mapping, G4 segment walk
+UNITS['argon2_ref_core'] = dict(link=[dict(src='src/argon2_ref.c', inline=False), dict(src='src/argon2_core.c', inline=False)])
+UNITS['argon2_ssse3_core'] = dict(link=[dict(src='src/argon2_ssse3.c', inline=False), dict(src='src/argon2_core.c', inline=False)])
+UNITS['argon2_avx2_core'] = dict(link=[dict(src='src/argon2_avx2.c', inline=False), dict(src='src/argon2_core.c', inline=False)])
+
+def spec_index_alpha(pass_, slice_, index, seg, lane_length, J1):
+    """RFC 9106 3.4.2, one lane, as z3 terms (pass/slice/index python ints, seg/lane_length ints or terms, J1 32-bit term) -> 64-bit index"""
+    if pass_ == 0: W = slice_ * seg + index - 1
+    else: W = lane_length - seg + index - 1
+    J = z3.ZeroExt(32, J1); x = z3.LShR(J * J, 32); Wt = z3.BitVecVal(W, 64) if is_c(W) else W
+    y = z3.LShR(Wt * x, 32); zz = Wt - 1 - y
+    start = 0
+    if pass_ != 0 and slice_ != 3: start = (slice_ + 1) * seg
+    tot = zz + start
+    return z3.URem(tot, z3.BitVecVal(lane_length, 64) if is_c(lane_length) else lane_length)
+
+def run_G4(ctx, case):
+    impl = case['impl']; seg = case['seg']; q = Q(60); mod = Module(ctx['ll']['argon2_%s_core' % impl]); simd = impl != 'ref'
+    lane = 4 * seg; NB = lane; VERSION13 = 0x13; steps = 0; ncalls = 0
+    ti = resolve(NamedT('struct.Argon2_instance_t', mod)); io = ti.layout()[0]
+    fn_seg = 'randomx_argon2_fill_segment_' + impl
+    for pass_ in range(case['passes']):
+        for slice_ in range(4):
+            it = Interp(mod); calls = []; cnt = [0]
+            inst = it.mem.alloc(ti.size(), 'inst'); memo = it.mem.alloc(NB * 1024, 'memory')
+            blocks = {k: [z3.BitVec('M%d_%d' % (k, w), 64) for w in range(128)] for k in range(NB)}
+            for k in range(NB):
+                for w in range(128): it.mem.store(Ptr('memory', 1024 * k + 8 * w), blocks[k][w], 8)
+            for k_, v in enumerate((memo, VERSION13, case['passes'], NB, seg, lane, 1, 1, 0, 0)):
+                it.mem.store(Ptr('inst', io[k_]), v, 8 if k_ == 0 else 4)
+            def fb(s, a):
+                p0, rf, cur, wx = a; cnt[0] += 1; n = cnt[0]
+                new = [z3.BitVec('B%d_%d' % (n, w), 64) for w in range(128)]
+                prev_content = [s.mem.load(Ptr(p0.obj, p0.off + 8 * w), 8) for w in range(128)] if simd else None
+                calls.append(dict(prev=p0, ref=rf, cur=cur, wx=wx, prev_content=prev_content, new=new))
+                for w in range(128):
+                    s.mem.store(Ptr(cur.obj, cur.off + 8 * w), new[w], 8)
+                    if simd: s.mem.store(Ptr(p0.obj, p0.off + 8 * w), new[w], 8)
+                return None
+            it.hooks[mod.find('fill_block')] = fb
+            pos0 = pass_ | (0 << 32); pos1 = slice_ | (0 << 32)
+            it.call(fn_seg, [inst, pos0, pos1]); steps += it.steps
+            # ---- RFC walk
+            start = 2 if (pass_ == 0 and slice_ == 0) else 0
+            tag = 'fill_segment_%s(seg=%d, pass %d, slice %d)' % (impl, seg, pass_, slice_)
+            exp_n = seg - start; ok = len(calls) == exp_n; q.n += 1; q.unsat += ok; q.sat += (not ok)
+            if not ok: q.failed.append((tag + ': %d blocks built, RFC walk builds %d' % (len(calls), exp_n), {})); continue
+            cur_mem = dict(blocks)
+            for j, c in enumerate(calls):
+                i = start + j; cur = slice_ * seg + i; prev = cur - 1 if cur % lane != 0 else cur + lane - 1
+                def chk(cond, what):
+                    q.n += 1; q.unsat += bool(cond); q.sat += (not cond)
+                    if not cond: q.failed.append(('%s block %d: %s' % (tag, i, what), {}))
+                chk(c['cur'].obj == 'memory' and c['cur'].off == 1024 * cur, 'current block is memory[%d]' % cur)
+                chk(is_c(c['wx']) and c['wx'] == (1 if pass_ > 0 else 0), 'with_xor = %s (version 0x13: overwrite in pass 0, XOR afterwards)' % c['wx'])
+                if simd:
+                    same = all((not is_c(x)) and x.eq(y) for x, y in zip(c['prev_content'], cur_mem[prev]))
+                    chk(same, 'SIMD running state holds the previous block memory[%d]' % prev)
+                else: chk(c['prev'].obj == 'memory' and c['prev'].off == 1024 * prev, 'previous block is memory[%d]' % prev)
+                J1 = z3.Extract(31, 0, cur_mem[prev][0])
+                ref_idx = spec_index_alpha(pass_, slice_, i, seg, lane, J1)
+                ro = c['ref']
+                if ro.obj != 'memory': chk(False, 'reference block outside the memory array'); continue
+                q.prove_eq([], bv(ro.off, 64), ref_idx * 1024, '%s block %d: reference block == RFC 9106 index mapping' % (tag, i), 64)
+                cur_mem[cur] = c['new']; ncalls += 1
+            extent_checks(q, [], it.mem, tag)
+    return result('G4', '%s seg=%d' % (impl, seg), q, paths=4 * case['passes'], steps=steps, detail='%d fill_block calls compared with the RFC walk' % ncalls)
+
+def jobs_G4(ctx):
+    segs = [2, 3] if ctx['tier'] == 'quick' else [2, 3, 4, 6]
+    return [dict(impl=i, seg=s_, passes=2 if ctx['tier'] == 'quick' else 3) for i in ('ref', 'ssse3', 'avx2') for s_ in segs]
+
+LEMMAS['G4'] = dict(jobs=jobs_G4, run=run_G4, units=['argon2_ref_core', 'argon2_ssse3_core', 'argon2_avx2_core'],
+    functions=['randomx_argon2_fill_segment_ref', 'randomx_argon2_fill_segment_ssse3', 'randomx_argon2_fill_segment_avx2', 'randomx_argon2_index_alpha'],
+    doc='segment walk on reduced instances: the sequence (previous, reference, current, with_xor) of compression calls equals the RFC 9106 walk for every (pass, slice); pass 0 overwrites, later passes XOR; SIMD running state carries exactly the previous block; reference index == RFC index mapping',
+    bound='lane_length = 4*segment_length, segment_length in {2,3} (quick) / {2,3,4,6}, passes 2 (quick) / 3, arbitrary memory contents', symbolic='all memory words (so every pseudo-random J1)', stubs=['fill_block := recorder producing fresh block symbols (G1/G2 decide the compression itself)'],
+    outside='the full 262144-block instance as one run')
